@@ -1952,10 +1952,12 @@ class Cluster(object):
                 future = session.add_or_renew_pool(host, is_host_addition=False)
                 if future is not None:
                     have_future = True
-                    # register the future before its callback: the callback drops it from the set,
-                    # and it may run at once, or on another thread before the next line
                     futures.add(future)
-                    future.add_done_callback(callback)
+            # attach the callback only once the futures of all sessions are in the set: the
+            # callback drops its future from the set and finishes the handling when the set is
+            # empty, and it may run at once, or on another thread while this loop is still running
+            for future in tuple(futures):
+                future.add_done_callback(callback)
         except Exception:
             log.exception("Unexpected failure handling node %s being marked up:", host)
             for future in futures:
@@ -2125,7 +2127,9 @@ class Cluster(object):
             if future is not None:
                 have_future = True
                 futures.add(future)
-                future.add_done_callback(future_completed)
+        # attach the callback only once the futures of all sessions are in the set (see on_up)
+        for future in tuple(futures):
+            future.add_done_callback(future_completed)
 
         if not have_future:
             self._finalize_add(host)
